@@ -56,6 +56,9 @@ func properSealer(sc *scenario, e epSpec) int {
 
 func keysProper(sc *scenario) bool {
 	for _, e := range sc.Eps {
+		if e.Named != sc.Provider && e.Spell == spellJunk {
+			return false // the entry names no identity at all
+		}
 		if e.Sealer >= 0 && e.Sealer != properSealer(sc, e) {
 			return false
 		}
@@ -91,7 +94,7 @@ func expect(sc *scenario) (want string, signer int) {
 	switch m.Kind {
 	case "":
 		return base, sc.Signer
-	case "prev", "entries", "provider", "addr", "metadata", "rm":
+	case "prev", "entries", "provider", "addr", "metadata", "rm", "respell", "ep-respell":
 		return "fail", 0
 	case "ctx", "override":
 		if hasEps {
@@ -245,6 +248,12 @@ func (r *run) check(sc *scenario, emit bool) string {
 			if err != nil {
 				return codec + " round trip failed: " + err.Error()
 			}
+			if d := fieldDiff(b.ad, rt); d != "" {
+				return fmt.Sprintf("after a %s round trip the advertisement differs from the one encoded: %s", codec, d)
+			}
+			if emit && sc.Mut.Kind == "" && (spelled(sc) || sc.Seed%4 == 1) {
+				r.rtCase(b.ad, rt, sc)
+			}
 			o2 := verifyReal(rt)
 			if emit {
 				r.c.Count("oracle:round-trip-stable")
@@ -276,6 +285,77 @@ func (r *run) wireWanted(sc *scenario) bool {
 	}
 	r.wireTick++
 	return r.wireTick%r.c.Pick(14, 2) == 0
+}
+
+// fieldDiff: the first field in which two advertisements differ byte for byte ("" = none;
+// a nil and an empty slice are one value on the wire)
+func fieldDiff(a, b *schema.Advertisement) string {
+	lb := func(l interface{}) string { return string(linkBytes(l)) }
+	strs := func(x, y []string) bool {
+		if len(x) != len(y) {
+			return false
+		}
+		for i := range x {
+			if x[i] != y[i] {
+				return false
+			}
+		}
+		return true
+	}
+	switch {
+	case (a.PreviousID == nil) != (b.PreviousID == nil) || lb(a.PreviousID) != lb(b.PreviousID):
+		return "PreviousID"
+	case lb(a.Entries) != lb(b.Entries):
+		return "Entries"
+	case a.Provider != b.Provider:
+		return fmt.Sprintf("Provider %q became %q", a.Provider, b.Provider)
+	case !strs(a.Addresses, b.Addresses):
+		return "Addresses"
+	case string(a.ContextID) != string(b.ContextID):
+		return "ContextID"
+	case string(a.Metadata) != string(b.Metadata):
+		return "Metadata"
+	case a.IsRm != b.IsRm:
+		return "IsRm"
+	case string(a.Signature) != string(b.Signature):
+		return "Signature"
+	case (a.ExtendedProvider == nil) != (b.ExtendedProvider == nil):
+		return "ExtendedProvider"
+	}
+	if a.ExtendedProvider != nil {
+		x, y := a.ExtendedProvider, b.ExtendedProvider
+		if x.Override != y.Override || len(x.Providers) != len(y.Providers) {
+			return "ExtendedProvider"
+		}
+		for i := range x.Providers {
+			p, q := x.Providers[i], y.Providers[i]
+			switch {
+			case p.ID != q.ID:
+				return fmt.Sprintf("ExtendedProvider.Providers[%d].ID %q became %q", i, p.ID, q.ID)
+			case !strs(p.Addresses, q.Addresses):
+				return fmt.Sprintf("ExtendedProvider.Providers[%d].Addresses", i)
+			case string(p.Metadata) != string(q.Metadata):
+				return fmt.Sprintf("ExtendedProvider.Providers[%d].Metadata", i)
+			case string(p.Signature) != string(q.Signature):
+				return fmt.Sprintf("ExtendedProvider.Providers[%d].Signature", i)
+			}
+		}
+	}
+	return ""
+}
+
+// rtCase: the advertisement as encoded and as decoded, for the model to compare the signed
+// payload bytes of the two
+func (r *run) rtCase(before, after *schema.Advertisement, sc *scenario) {
+	v1, v2 := &viewer{}, &viewer{}
+	term := fmt.Sprintf("(%s, %s)", v1.coqAd(before, true), v2.coqAd(after, true))
+	if r.seen[term] {
+		return
+	}
+	r.seen[term] = true
+	r.c.Eval()
+	r.c.Count("rt")
+	r.c.Case("rt", term, sc)
 }
 
 func whyFail(sc *scenario) string {
@@ -315,6 +395,7 @@ func (r *run) shrink(sc *scenario) *scenario {
 			cur = t
 		}
 	}
+	try(func(s *scenario) { s.Mut = mutation{Ep: -1} }) // does it fail without the mutation?
 	try(func(s *scenario) { s.Codec = "" })
 	try(func(s *scenario) { s.OldFormat = false })
 	try(func(s *scenario) { s.Prev = false })
@@ -344,6 +425,10 @@ func (r *run) shrink(sc *scenario) *scenario {
 		try(func(s *scenario) { s.Eps[i].NAddrs = 0 })
 		try(func(s *scenario) { s.Eps[i].MdLen = 0 })
 		try(func(s *scenario) { s.Eps[i].Sealer = -1 })
+	}
+	try(func(s *scenario) { s.PSpell = 0 })
+	for i := range cur.Eps {
+		try(func(s *scenario) { s.Eps[i].Spell = 0 })
 	}
 	try(func(s *scenario) { s.Provider = s.Signer }) // provider signs for itself
 	try(func(s *scenario) { s.Seed = 1 })
@@ -399,6 +484,14 @@ func scenarioSig(sc *scenario) string {
 	if sc.OldFormat {
 		shape += "+oldformat"
 	}
+	if sc.PSpell != 0 {
+		shape += "+provider:" + spellName[sc.PSpell]
+	}
+	for i, e := range sc.Eps {
+		if e.Named != sc.Provider && e.Spell != 0 {
+			shape += fmt.Sprintf("+ep%d:%s", i, spellName[e.Spell])
+		}
+	}
 	if sc.Codec != "" {
 		shape += "+" + sc.Codec
 	}
@@ -413,6 +506,20 @@ func scenarioSig(sc *scenario) string {
 	}
 	return fmt.Sprintf("verify:shape=%s:eps=[%s]:mut=%s", shape, strings.Join(eps, ","), mut)
 }
+
+func spelled(sc *scenario) bool {
+	if sc.PSpell != 0 {
+		return true
+	}
+	for _, e := range sc.Eps {
+		if e.Spell != 0 {
+			return true
+		}
+	}
+	return false
+}
+
+var spellName = []string{"base58", "cidv1-base32", "cidv1-base36", "junk"}
 
 func envKeyOf(sc *scenario) int {
 	if sc.Mut.Ep >= 0 && sc.Mut.Ep < len(sc.Eps) {
@@ -453,7 +560,7 @@ func (r *run) signCase(sc *scenario, plain bool, dropFetch int) {
 	fetchTbl := []string{}
 	fetch := func(id string) (crypto.PrivKey, error) {
 		for i, e := range sc.Eps {
-			if pool.Ids[e.Named].ID.String() == id && i != dropFetch {
+			if sc.epStr(e) == id && i != dropFetch {
 				return pool.Ids[e.Named].Priv, nil
 			}
 		}
@@ -463,7 +570,7 @@ func (r *run) signCase(sc *scenario, plain bool, dropFetch int) {
 	for i, e := range sc.Eps {
 		if i != dropFetch && !seen[e.Named] {
 			seen[e.Named] = true
-			fetchTbl = append(fetchTbl, fmt.Sprintf("(%s, %d)", coqBytes([]byte(pool.Ids[e.Named].ID.String())), e.Named))
+			fetchTbl = append(fetchTbl, fmt.Sprintf("(%s, %d)", coqBytes([]byte(sc.epStr(e))), e.Named))
 		}
 	}
 	var err error
@@ -527,6 +634,7 @@ func main() {
 	defer c.Finish()
 	c.Family("verify", caseHeader, "fun c => andb pk_selftest (verify_case_ok c)", c.Pick(250, 400))
 	c.Family("sign", caseHeader, "fun c => andb pk_selftest (sign_case_ok c)", 200)
+	c.Family("rt", caseHeader, "fun c => andb pk_selftest (rt_case_ok c)", 150)
 	c.Family("history", caseHeader, "fun c => andb pk_selftest (history_case_ok c)", 40)
 	c.Family("wire", wireHeader, "fun c => andb pk_selftest (wire_case_ok c)", c.Pick(60, 100))
 	r := &run{c: c, failed: map[string]int{}, seen: map[string]bool{}}
